@@ -754,27 +754,31 @@ func c17EncoderVsEstimator(c *an.Ctx) {
 func c17LinkEncoder(c *an.Ctx) {
 	p := c.P
 	const md = "ipld/merkledag"
-	mi := p.Func(md, "ProtoNode", "marshalImmutable")
-	if mi == nil {
-		// by role: the ProtoNode method that builds the dag-pb map (writes the "Hash" entry)
-		for _, m := range p.Methods(md, "ProtoNode") {
-			for _, cl := range an.WithClosures(m) {
-				for _, call := range an.Calls(cl, an.M("github.com/ipld/go-ipld-prime/fluent/qp", "", "MapEntry")) {
-					if k, ok := an.ConstOf(call.Common().Args[1]); ok && k.Kind() == constant.String && constant.StringVal(k) == "Hash" {
-						mi = m
-					}
+	// by role: the functions of the package (with their closures) that build a
+	// dag-pb link map, i.e. write a "Hash" map entry
+	isEntry := an.M("github.com/ipld/go-ipld-prime/fluent/qp", "", "MapEntry")
+	var encs []*ssa.Function
+	for _, m := range p.PkgFuncs(md) {
+		if m.Parent() != nil {
+			continue
+		}
+		for _, cl := range an.WithClosures(m) {
+			for _, call := range an.Calls(cl, isEntry) {
+				if k, ok := an.ConstOf(call.Common().Args[1]); ok && k.Kind() == constant.String && constant.StringVal(k) == "Hash" {
+					encs = append(encs, cl)
 				}
 			}
 		}
 	}
-	if !c.Need(mi != nil, "ProtoNode.marshalImmutable") {
+	if !c.Need(len(encs) > 0, "the dag-pb link encoder of ipld/merkledag (writes the \"Hash\" map entry)") {
 		return
 	}
+	const role = "ipld/merkledag.dag-pb-link-encoder"
 	want := map[string]string{"Hash": "Cid", "Name": "Name", "Tsize": "Size"}
 	found := map[string]bool{}
-	for _, cl := range an.WithClosures(mi) {
+	for _, cl := range encs {
 		keys := map[string]ssa.CallInstruction{}
-		for _, call := range an.Calls(cl, an.M("github.com/ipld/go-ipld-prime/fluent/qp", "", "MapEntry")) {
+		for _, call := range an.Calls(cl, isEntry) {
 			if k, ok := an.ConstOf(call.Common().Args[1]); ok && k.Kind() == constant.String {
 				keys[constant.StringVal(k)] = call
 			}
@@ -805,12 +809,12 @@ func c17LinkEncoder(c *an.Ctx) {
 			if call != nil {
 				pos = call.Pos()
 			}
-			c.Check(ok, "O6", "R-TABLE", an.FuncName(mi), "link-entry-"+key+"<=link."+field+"-unconditional", pos,
+			c.Check(ok, "O6", "R-TABLE", role, "link-entry-"+key+"<=link."+field+"-unconditional", pos,
 				"every encoded link carries "+key+" built from link."+field,
 				"dag-pb link encoding: "+why+" — linkSerializedSize counts tag+length+value of Hash, Name and Tsize for every link, so the estimate no longer equals the serialized size")
 		}
 	}
-	c.Min("O6 link entries found in marshalImmutable", len(found), 1)
+	c.Min("O6 link entries found in the dag-pb link encoder", len(found), 1)
 }
 
 // c17OneLinkPerTerm: O4 for all size calls and *ipld.Link literals of the package.
